@@ -161,3 +161,12 @@ impl<F: PrimeField, S: Into<F>> Mul<S> for LinearCombination<F> {
         self
     }
 }
+
+/// Verification-only accessor (guarded, add-only).
+#[cfg(feature = "verif-hooks")]
+impl<F: PrimeField> LinearCombination<F> {
+    /// The `(variable, coefficient)` terms of this linear combination, in order.
+    pub fn verif_terms(&self) -> &[(Variable<F>, F)] {
+        &self.terms
+    }
+}
